@@ -6,6 +6,7 @@ import MM.Props.C07C18
 #print axioms MM.Numeric.C07_fixed_order
 #print axioms MM.Numeric.C07_fixed_equivariant
 #print axioms MM.Numeric.C07_scenario
+#print axioms MM.Numeric.C07_scenario_signed_sum_fails
 #print axioms MM.Numeric.C18_cumulative_order
 #print axioms MM.Numeric.C18_pointwise_order_partial
 #print axioms MM.Numeric.C18_pointwise_order_fails
